@@ -98,7 +98,7 @@ fn full_oracle(mt: &str, x: &str, mutation: &str, scope: &str, obs: &mut Obs) ->
     let ops = msg_ops(mt);
     let x = x.to_string();
     let c_mt = mt.to_string();
-    if crate::refs::has_long_number(&x) {
+    if crate::refs::has_long_number(&crate::props::c10::block4_of(&x)) {
         obs.excluded("amount-beyond-f64-precision (C06 reports it)");
         return out;
     }
